@@ -17,7 +17,8 @@ RULE = ("cases: tensor op x operand shapes (rank 0-4, size-1 dims, every broadca
         "distinct by hash of the whole case"
         " Also: memory layouts (C/F/strided/reversed views), nn.Parameter operands, operand magnitudes 2^-60..2^40, occasional sides up to 32, index sequences spelled as list/tuple/ndarray, a second backward through the same graph, caller-mutated operand lists, near-ties of max/min, and an enumerated grid of every dim argument for ranks <= 3."
         " Round 4: operands with a zero-length dimension (16 op kinds; gradient = the only possible value), 0-d tensors with dim 0/-1, NumPy-integer dims, dim=(), one tensor in several operand roles of matmul/addmm, addmm with batched factors and an x1 larger than the product, bare (non-tuple) index keys."
-        " Round 5: a second backward(g) must add exactly the first; (result*3).backward(result.grad) must scale every operand gradient accordingly.")
+        " Round 5: a second backward(g) must add exactly the first; (result*3).backward(result.grad) must scale every operand gradient accordingly."
+        " Round 7: a refused backward call (upstream gradient of the wrong shape) before the valid one.")
 ASSUMPTIONS = ["finite-difference truncation+rounding error <= 1e-8 relative on the value grids; tolerance "
                "1e-5*scale (float64) / 2e-3*scale (float32)",
                "forward rejected -> nothing asserted here (C05 owns acceptance)"]
